@@ -244,7 +244,7 @@ def history_strategy(max_ops=25, kinds=(0, 0, 0, 0, 1, 2, 3, 4, 5, 6, 7), max_ev
 
     # decoders that read the records nested in their window get the same weight as a whole pool
     composite = [n for n in COMPOSITES if n in set(ordinary)]
-    code = st.one_of(st.sampled_from(ordinary), st.sampled_from(ordinary), st.sampled_from(trace),
+    code = st.one_of(st.sampled_from(ordinary), st.sampled_from(ordinary), st.sampled_from(trace), st.sampled_from(trace),
                      st.sampled_from(undec), st.sampled_from(unknown), st.sampled_from(composite))
     if mostly_decodable:
         code = st.one_of(*[st.sampled_from(ordinary)] * 6, st.sampled_from(undec), st.sampled_from(unknown))
